@@ -86,6 +86,28 @@ pub fn update_fields(val: usize) -> BTreeMap<String, Fv> {
     ])
 }
 
+/// The fields an update to value `val` sends.  Sequential drivers (VERIF_PARTIAL_UPDATE=1) send only the
+/// fields that DIFFER from the stored document - an update that touches a subset of the fields, possibly a
+/// subset of the member fields of a multi-field index; concurrent drivers always send the full image (a
+/// diff against a stale read would compose a document outside the value table).
+pub async fn fields_for_update(col: &Collection, id: u64, val: usize) -> BTreeMap<String, Fv> {
+    let all = update_fields(val);
+    if std::env::var("VERIF_PARTIAL_UPDATE").map(|v| v == "1").unwrap_or(false)
+        && let Ok(d) = col.get(id).await
+        && let Ok(cur) = d.try_into::<CDoc>()
+    {
+        let old = val_of(&cur);
+        if old != 0 {
+            let before = update_fields(old);
+            let changed: BTreeMap<String, Fv> = all.iter().filter(|(k, v)| before.get(*k) != Some(*v)).map(|(k, v)| (k.clone(), v.clone())).collect();
+            if !changed.is_empty() {
+                return changed;
+            }
+        }
+    }
+    all
+}
+
 /// value of a concrete document: exact match on (k,t,a,b,v) else 0 = "not a table value"
 pub fn val_of(doc: &CDoc) -> usize {
     for (i, (k, t, a)) in VALS.iter().enumerate() {
@@ -102,7 +124,8 @@ pub fn val_of(doc: &CDoc) -> usize {
 }
 
 pub fn index_kinds() -> Value {
-    json!({"k": "btu", "t": "bm", "v": "hn", "a": "bt", "b": "bt"})
+    // "c": the multi-field (virtual) B-tree index over (a, b) - always unique in the code
+    json!({"k": "btu", "t": "bm", "v": "hn", "a": "bt", "b": "bt", "c": "btu"})
 }
 
 /// Terms[index][val-1] as JSON
@@ -112,14 +135,17 @@ pub fn index_terms() -> Value {
     let mut a = Vec::new();
     let mut b = Vec::new();
     let mut v = Vec::new();
+    let mut c = Vec::new();
     for (i, (kk, tt, aa)) in VALS.iter().enumerate() {
+        // every (a, b) pair of the table is distinct (b is the value number): the composite key of value n is n
+        c.push(json!(vec![(i + 1) as u64]));
         k.push(json!(kk.map(|x| vec![x]).unwrap_or_default()));
         t.push(json!(tokens_of(*tt)));
         a.push(json!(aa.map(|x| vec![x]).unwrap_or_default()));
         b.push(json!(vec![(i + 1) as u64]));
         v.push(json!(Vec::<u64>::new()));
     }
-    json!({"k": k, "t": t, "a": a, "b": b, "v": v})
+    json!({"k": k, "t": t, "a": a, "b": b, "v": v, "c": c})
 }
 
 pub fn db_config() -> DBConfig {
@@ -142,6 +168,7 @@ pub async fn create_index(c: &mut Collection, name: &str) -> Result<(), DBError>
         "k" => c.create_btree_index_nx(&["k"]).await,
         "a" => c.create_btree_index_nx(&["a"]).await,
         "b" => c.create_btree_index_nx(&["b"]).await,
+        "c" => c.create_btree_index_nx(&["a", "b"]).await,
         "t" => c.create_bm25_index_nx(&["t"]).await,
         "v" => {
             c.create_hnsw_index_nx(
@@ -160,6 +187,7 @@ pub async fn create_index(c: &mut Collection, name: &str) -> Result<(), DBError>
 pub async fn remove_index(c: &mut Collection, name: &str) -> Result<bool, DBError> {
     match name {
         "k" | "a" | "b" => c.remove_btree_index(&[name]).await,
+        "c" => c.remove_btree_index(&["a", "b"]).await,
         "t" => c.remove_bm25_index(&["t"]).await,
         "v" => c.remove_hnsw_index("v").await,
         other => panic!("unknown index {other}"),
@@ -256,7 +284,8 @@ pub fn classify(e: &Event, seqs: &mut SeqMap) -> Option<Value> {
         if let Some(p) = payload
             && let Ok(m) = cbor2::from_slice::<CollectionMetadata>(p)
         {
-            let mut idx: Vec<String> = m.btree_indexes.keys().cloned().collect();
+            // the multi-field index (a, b) is called "a-b" by the code and "c" by the specification
+            let mut idx: Vec<String> = m.btree_indexes.keys().map(|n| if n == "a-b" { "c".to_string() } else { n.clone() }).collect();
             idx.extend(m.bm25_indexes.keys().cloned());
             idx.extend(m.hnsw_indexes.keys().cloned());
             idx.sort();
@@ -290,7 +319,7 @@ pub fn classify(e: &Event, seqs: &mut SeqMap) -> Option<Value> {
         .or_else(|| rel.strip_prefix("bm25_indexes/"))
     {
         let (name, obj) = r.split_once('/')?;
-        o.insert("idx".into(), json!(name));
+        o.insert("idx".into(), json!(if name == "a-b" { "c" } else { name }));
         let cls = if obj == "meta.cbor" && kind == "put" {
             if e.mode == "update" { "idx_commit" } else { "idx_init" }
         } else {
@@ -353,6 +382,21 @@ async fn observe_with(col: &Collection, max_id: u64) -> Value {
             }
             idx.insert(name.to_string(), json!(pairs));
         }
+    }
+    if col.get_btree_index(&["a", "b"]).is_ok() {
+        // the multi-field index: one Eq lookup per (a, b) pair of the value table
+        let mut pairs = Vec::new();
+        for (i, (_, _, aa)) in VALS.iter().enumerate() {
+            let a = aa.map(Fv::U64);
+            let b = Fv::U64((i + 1) as u64);
+            let key = anda_db::index::virtual_field_value(&[a.as_ref(), Some(&b)]).expect("composite key");
+            if let Ok(got) = col.query_all_ids(Filter::Field(("a-b".to_string(), RangeQuery::Eq(key)))).await {
+                for id in got {
+                    pairs.push(json!([id, i + 1]));
+                }
+            }
+        }
+        idx.insert("c".to_string(), json!(pairs));
     }
     if let Ok(view) = col.get_bm25_index(&["t"]) {
         let mut pairs = Vec::new();
@@ -524,7 +568,7 @@ pub async fn exec_op(col: &Collection, op: &Value) -> Value {
         "update" => match col
             .update(
                 op["id"].as_u64().unwrap(),
-                update_fields(op["val"].as_u64().unwrap() as usize),
+                fields_for_update(col, op["id"].as_u64().unwrap(), op["val"].as_u64().unwrap() as usize).await,
             )
             .await
         {
